@@ -1,1 +1,873 @@
-// placeholder
+//! C04, C09–C16 reference: table-driven ITU-R M.1371 decoder.
+//!
+//! Written from the standard's field lists (bit offset, width, meaning), NOT from the crate. A
+//! generic MSB-first bit extractor fills the tables in. `expect(payload)` is total: it returns
+//! whether the payload must be rejected, must decode, or lies in an unjudged zone, plus — for every
+//! field the message should report — its identifier, bit location, class and expected value.
+use crate::canon::{f, fi, fij, Fid, Val, CARRIER};
+
+/// Which property a field's comparison belongs to.
+#[derive(Clone, Copy, Debug, PartialEq, Eq)]
+pub enum Class {
+    /// the message's own type field (C09)
+    Type,
+    /// integers, flags, identifiers (C04)
+    Int,
+    /// coordinates / speed / course / draught: value clause C10, presence clause C11
+    Scaled,
+    /// sentinel-only optional fields: heading, rot, altitude, date parts, slot offset (C11)
+    Opt,
+    /// enumerated codes (C12)
+    Enum,
+    /// 6-bit text (C13)
+    Text,
+    /// element counts, optional-branch presence (C14)
+    Len,
+    /// binary pass-through (C15)
+    Bin,
+    /// communication state (C16)
+    Radio,
+}
+
+#[derive(Clone, Debug, PartialEq)]
+pub enum Exp {
+    Is(Val),
+    /// exact quotient; the f32 result must be within 2^-22 relative (≈ 2 ulp)
+    Approx(f64),
+    OneOf(Vec<Val>),
+    Any,
+}
+
+#[derive(Clone, Debug)]
+pub struct SF {
+    pub id: Fid,
+    pub class: Class,
+    pub off: u16,
+    pub w: u16,
+    pub exp: Exp,
+    /// compare only if the implementation reports this field (optional list elements)
+    pub if_reported: bool,
+}
+
+#[derive(Clone, Debug, PartialEq, Eq)]
+pub enum Status {
+    MustErr(&'static str),
+    MustOk,
+    /// unjudged zone: `Err` or a sound `Ok` are both accepted
+    Either(&'static str),
+}
+
+#[derive(Clone, Debug)]
+pub struct Expectation {
+    pub status: Status,
+    pub mtype: u8,
+    pub variant: &'static str,
+    pub fields: Vec<SF>,
+    /// the no-allocator build may answer `Err` instead (documented capacity exceeded)
+    pub noalloc_may_err: bool,
+}
+
+pub const SUPPORTED: [u8; 23] = [
+    1, 2, 3, 4, 5, 6, 7, 8, 9, 10, 11, 12, 13, 14, 15, 16, 17, 18, 19, 20, 21, 24, 27,
+];
+
+pub fn variant_for(t: u8) -> Option<&'static str> {
+    Some(match t {
+        1..=3 => "PositionReport",
+        4 => "BaseStationReport",
+        5 => "StaticAndVoyageRelatedData",
+        6 => "BinaryAddressedMessage",
+        7 => "BinaryAcknowledgeMessage",
+        8 => "BinaryBroadcastMessage",
+        9 => "StandardAircraftPositionReport",
+        10 => "UtcDateInquiry",
+        11 => "UtcDateResponse",
+        12 => "AddressedSafetyRelatedMessage",
+        13 => "SafetyRelatedAcknowledgment",
+        14 => "SafetyRelatedBroadcastMessage",
+        15 => "Interrogation",
+        16 => "AssignmentModeCommand",
+        17 => "DgnssBroadcastBinaryMessage",
+        18 => "StandardClassBPositionReport",
+        19 => "ExtendedClassBPositionReport",
+        20 => "DataLinkManagementMessage",
+        21 => "AidToNavigationReport",
+        24 => "StaticDataReport",
+        27 => "LongRangeAisBroadcastMessage",
+        _ => return None,
+    })
+}
+
+// ---------------------------------------------------------------------------------------------
+// bit access (MSB first)
+
+#[inline]
+pub fn get_bits(b: &[u8], off: usize, w: usize) -> Option<u64> {
+    if off + w > b.len() * 8 || w > 64 {
+        return None;
+    }
+    let mut v = 0u64;
+    for p in off..off + w {
+        v = (v << 1) | ((b[p / 8] >> (7 - p % 8)) & 1) as u64;
+    }
+    Some(v)
+}
+
+#[inline]
+pub fn set_bits(b: &mut [u8], off: usize, w: usize, v: u64) {
+    for i in 0..w {
+        let p = off + i;
+        if p >= b.len() * 8 {
+            break;
+        }
+        let bit = ((v >> (w - 1 - i)) & 1) as u8;
+        let m = 0x80u8 >> (p % 8);
+        if bit == 1 {
+            b[p / 8] |= m;
+        } else {
+            b[p / 8] &= !m;
+        }
+    }
+}
+
+#[inline]
+pub fn sign_extend(v: u64, w: usize) -> i64 {
+    if (v >> (w - 1)) & 1 == 1 {
+        (v as i64) - (1i64 << w)
+    } else {
+        v as i64
+    }
+}
+
+pub fn sixbit_char(v: u8) -> char {
+    if v < 32 {
+        (v + 64) as char
+    } else {
+        v as char
+    }
+}
+
+/// 6-bit ASCII decoding of `n` characters at `off`, then: leading spaces, trailing '@', trailing
+/// spaces removed.
+pub fn text_at(b: &[u8], off: usize, n: usize) -> Option<String> {
+    let mut s = String::with_capacity(n);
+    for i in 0..n {
+        s.push(sixbit_char(get_bits(b, off + 6 * i, 6)? as u8));
+    }
+    Some(trim_text(&s).to_string())
+}
+
+pub fn trim_text(s: &str) -> &str {
+    s.trim_start_matches(' ')
+        .trim_end_matches('@')
+        .trim_end_matches(' ')
+}
+
+// ---------------------------------------------------------------------------------------------
+// enumerations: ITU code -> canonical value (see canon.rs for the reverse maps)
+
+pub fn e_nav_status(c: u64) -> Val {
+    if c == 15 {
+        Val::N
+    } else {
+        Val::U(c)
+    }
+}
+pub fn e_maneuver(c: u64) -> Val {
+    match c {
+        0 => Val::N,
+        1 | 2 => Val::U(c),
+        _ => Val::U(CARRIER + c),
+    }
+}
+pub fn e_epfd(c: u64) -> Val {
+    match c {
+        0 | 15 => Val::N,
+        1..=8 => Val::U(c),
+        _ => Val::U(CARRIER + c),
+    }
+}
+pub fn e_ship(c: u64) -> Val {
+    match c {
+        0 => Val::N,
+        100.. => Val::N,
+        1..=19 | 38 | 39 => Val::U(CARRIER + c),
+        30..=37 => Val::U(c),
+        50..=55 | 58 | 59 => Val::U(c),
+        56 | 57 => Val::U(5 * CARRIER + c),
+        _ => {
+            // decades 2, 4, 6, 7, 8, 9: x0 all, x1..x4 hazard A–D, x5..x8 reserved, x9 no info
+            let (d, u) = (c / 10, c % 10);
+            match (d, u) {
+                (2, 5..=9) => Val::U(2 * CARRIER + c), // WIG: 25..29 reserved
+                (_, 5..=8) => Val::U(d * CARRIER + c),
+                _ => Val::U(c),
+            }
+        }
+    }
+}
+pub fn e_navaid(c: u64) -> Val {
+    if c == 0 {
+        Val::N
+    } else {
+        Val::U(c)
+    }
+}
+pub fn e_plain(c: u64) -> Val {
+    Val::U(c)
+}
+pub fn e_part(c: u64) -> Val {
+    match c {
+        0 | 1 => Val::U(c),
+        _ => Val::U(CARRIER + c),
+    }
+}
+
+// ---------------------------------------------------------------------------------------------
+// builder
+
+struct B<'a> {
+    b: &'a [u8],
+    out: Vec<SF>,
+    opt: bool,
+}
+
+impl<'a> B<'a> {
+    fn nbits(&self) -> usize {
+        self.b.len() * 8
+    }
+    fn push(&mut self, id: Fid, class: Class, off: usize, w: usize, exp: Exp) {
+        self.out.push(SF {
+            id,
+            class,
+            off: off as u16,
+            w: w as u16,
+            exp,
+            if_reported: self.opt,
+        });
+    }
+    fn raw(&self, off: usize, w: usize) -> Option<u64> {
+        get_bits(self.b, off, w)
+    }
+    fn uint(&mut self, id: Fid, off: usize, w: usize) {
+        if let Some(v) = self.raw(off, w) {
+            self.push(id, Class::Int, off, w, Exp::Is(Val::U(v)));
+        }
+    }
+    fn flag(&mut self, id: Fid, off: usize) {
+        if let Some(v) = self.raw(off, 1) {
+            self.push(id, Class::Int, off, 1, Exp::Is(Val::B(v == 1)));
+        }
+    }
+    fn header(&mut self) {
+        if let Some(v) = self.raw(0, 6) {
+            self.push(f("message_type"), Class::Type, 0, 6, Exp::Is(Val::U(v)));
+        }
+        self.uint(f("repeat_indicator"), 6, 2);
+        self.uint(f("mmsi"), 8, 30);
+    }
+    fn enumf(&mut self, id: Fid, off: usize, w: usize, table: fn(u64) -> Val) {
+        if let Some(v) = self.raw(off, w) {
+            self.push(id, Class::Enum, off, w, Exp::Is(table(v)));
+        }
+    }
+    /// signed coordinate: two's complement of its own width, raw/div degrees, absent at `sentinel`
+    fn coord(&mut self, id: Fid, off: usize, w: usize, div: f64, sentinel: i64) {
+        if let Some(v) = self.raw(off, w) {
+            let s = sign_extend(v, w);
+            let e = if s == sentinel {
+                Exp::Is(Val::N)
+            } else {
+                Exp::Approx(s as f64 / div)
+            };
+            self.push(id, Class::Scaled, off, w, e);
+        }
+    }
+    /// unsigned scaled value, absent at `sentinel` (if any)
+    fn scaled(&mut self, id: Fid, off: usize, w: usize, div: f64, sentinel: Option<u64>) {
+        if let Some(v) = self.raw(off, w) {
+            let e = if Some(v) == sentinel {
+                Exp::Is(Val::N)
+            } else {
+                Exp::Approx(v as f64 / div)
+            };
+            self.push(id, Class::Scaled, off, w, e);
+        }
+    }
+    /// optional unsigned: absent exactly at `sentinel`, raw value passed through otherwise
+    fn opt_u(&mut self, id: Fid, off: usize, w: usize, sentinel: u64) {
+        if let Some(v) = self.raw(off, w) {
+            let e = if v == sentinel { Val::N } else { Val::U(v) };
+            self.push(id, Class::Opt, off, w, Exp::Is(e));
+        }
+    }
+    fn rot(&mut self, id: Fid, off: usize) {
+        if let Some(v) = self.raw(off, 8) {
+            let s = sign_extend(v, 8);
+            let e = if s == -128 { Val::N } else { Val::I(s) };
+            self.push(id, Class::Opt, off, 8, Exp::Is(e));
+        }
+    }
+    fn text(&mut self, id: Fid, off: usize, nchars: usize) {
+        if let Some(s) = text_at(self.b, off, nchars) {
+            self.push(id, Class::Text, off, 6 * nchars, Exp::Is(Val::S(s)));
+        }
+    }
+    fn dims(&mut self, off: usize) {
+        self.uint(f("dimension_to_bow"), off, 9);
+        self.uint(f("dimension_to_stern"), off + 9, 9);
+        self.uint(f("dimension_to_port"), off + 18, 6);
+        self.uint(f("dimension_to_starboard"), off + 24, 6);
+    }
+    fn lonlat28(&mut self, off: usize) {
+        self.coord(f("longitude"), off, 28, 600_000.0, 108_600_000);
+        self.coord(f("latitude"), off + 28, 27, 600_000.0, 54_600_000);
+    }
+    fn lonlat18(&mut self, off: usize) {
+        self.coord(f("longitude"), off, 18, 600.0, 108_600);
+        self.coord(f("latitude"), off + 18, 17, 600.0, 54_600);
+    }
+    fn date6(&mut self, off: usize) {
+        self.opt_u(f("year"), off, 14, 0);
+        self.opt_u(f("month"), off + 14, 4, 0);
+        self.opt_u(f("day"), off + 18, 5, 0);
+        self.uint(f("hour"), off + 23, 5);
+        self.opt_u(f("minute"), off + 28, 6, 60);
+        self.opt_u(f("second"), off + 34, 6, 60);
+    }
+    fn rpush(&mut self, name: &'static str, off: usize, w: usize, exp: Exp) {
+        self.push(f(name), Class::Radio, off, w, exp);
+    }
+    /// SOTDMA communication state, 19 bits at `off`
+    fn sotdma(&mut self, off: usize) {
+        let (sync, tmo, sub) = match (self.raw(off, 2), self.raw(off + 2, 3), self.raw(off + 5, 14)) {
+            (Some(a), Some(b), Some(c)) => (a, b, c),
+            _ => return,
+        };
+        self.rpush("radio.kind", off, 19, Exp::Is(Val::S("sotdma".into())));
+        self.rpush("radio.sync", off, 2, Exp::Is(Val::U(sync)));
+        self.rpush("radio.timeout", off + 2, 3, Exp::Is(Val::U(tmo)));
+        match tmo {
+            0 => {
+                self.rpush("radio.sub", off + 5, 14, Exp::Is(Val::S("slot_offset".into())));
+                self.rpush("radio.sub.value", off + 5, 14, Exp::Is(Val::I(sub as i64)));
+            }
+            1 => {
+                // bits 13..9 hour, bits 8..2 minute, bits 1..0 not used
+                let hour = sub >> 9;
+                let min7 = (sub >> 2) & 0x7f;
+                let min6 = (sub >> 2) & 0x3f;
+                self.rpush("radio.sub", off + 5, 14, Exp::Is(Val::S("utc".into())));
+                self.rpush("radio.sub.hour", off + 5, 5, Exp::Is(Val::U(hour)));
+                // U2: minute >= 64 is not a time; accept the 7-bit and the 6-bit reading
+                let e = if min7 == min6 {
+                    Exp::Is(Val::U(min7))
+                } else {
+                    Exp::OneOf(vec![Val::U(min7), Val::U(min6)])
+                };
+                self.rpush("radio.sub.minute", off + 10, 7, e);
+            }
+            2 | 4 | 6 => {
+                self.rpush("radio.sub", off + 5, 14, Exp::Is(Val::S("slot_number".into())));
+                self.rpush("radio.sub.value", off + 5, 14, Exp::Is(Val::I(sub as i64)));
+            }
+            _ => {
+                self.rpush("radio.sub", off + 5, 14, Exp::Is(Val::S("received_stations".into())));
+                self.rpush("radio.sub.value", off + 5, 14, Exp::Is(Val::I(sub as i64)));
+            }
+        }
+    }
+    /// ITDMA communication state, 19 bits at `off`
+    fn itdma(&mut self, off: usize) {
+        let (sync, inc, n, keep) = match (
+            self.raw(off, 2),
+            self.raw(off + 2, 13),
+            self.raw(off + 15, 3),
+            self.raw(off + 18, 1),
+        ) {
+            (Some(a), Some(b), Some(c), Some(d)) => (a, b, c, d),
+            _ => return,
+        };
+        self.rpush("radio.kind", off, 19, Exp::Is(Val::S("itdma".into())));
+        self.rpush("radio.sync", off, 2, Exp::Is(Val::U(sync)));
+        self.rpush("radio.increment", off + 2, 13, Exp::Is(Val::I(inc as i64)));
+        self.rpush("radio.num_slots", off + 15, 3, Exp::Is(Val::U(n)));
+        self.rpush("radio.keep", off + 18, 1, Exp::Is(Val::B(keep == 1)));
+    }
+}
+
+/// characters in a text of `bits` bits
+fn chars_in(bits: usize) -> usize {
+    bits / 6
+}
+
+pub const NOALLOC_TEXT_CAP: usize = 20;
+pub const NOALLOC_BIN_CAP: usize = 119;
+
+/// The reference decoder. Total: any byte string gets an expectation.
+pub fn expect(p: &[u8]) -> Expectation {
+    let nbits = p.len() * 8;
+    let mut b = B {
+        b: p,
+        out: Vec::with_capacity(32),
+        opt: false,
+    };
+    let t = match get_bits(p, 0, 6) {
+        Some(t) => t as u8,
+        None => {
+            return Expectation {
+                status: Status::MustErr("empty payload"),
+                mtype: 0,
+                variant: "-",
+                fields: vec![],
+                noalloc_may_err: false,
+            }
+        }
+    };
+    let variant = match variant_for(t) {
+        Some(v) => v,
+        None => {
+            return Expectation {
+                status: Status::MustErr("unsupported message type"),
+                mtype: t,
+                variant: "-",
+                fields: vec![],
+                noalloc_may_err: false,
+            }
+        }
+    };
+    let mut noalloc_may_err = false;
+    let must = |min_bits: usize| -> Status {
+        if nbits >= min_bits {
+            Status::MustOk
+        } else {
+            Status::MustErr("shorter than the mandatory part of its type")
+        }
+    };
+    b.header();
+    let status = match t {
+        1..=3 => {
+            b.enumf(f("navigation_status"), 38, 4, e_nav_status);
+            b.rot(f("rate_of_turn"), 42);
+            b.scaled(f("speed_over_ground"), 50, 10, 10.0, Some(1023));
+            b.enumf(f("position_accuracy"), 60, 1, e_plain);
+            b.lonlat28(61);
+            b.scaled(f("course_over_ground"), 116, 12, 10.0, Some(3600));
+            b.opt_u(f("true_heading"), 128, 9, 511);
+            b.uint(f("timestamp"), 137, 6);
+            b.enumf(f("maneuver_indicator"), 143, 2, e_maneuver);
+            b.flag(f("raim"), 148);
+            if t == 3 {
+                b.itdma(149);
+            } else {
+                b.sotdma(149);
+            }
+            must(168)
+        }
+        4 | 11 => {
+            b.date6(38);
+            b.enumf(f("fix_quality"), 78, 1, e_plain);
+            b.lonlat28(79);
+            b.enumf(f("epfd_type"), 134, 4, e_epfd);
+            b.flag(f("raim"), 148);
+            b.sotdma(149);
+            must(168)
+        }
+        5 => {
+            b.uint(f("ais_version"), 38, 2);
+            b.uint(f("imo_number"), 40, 30);
+            b.text(f("callsign"), 70, 7);
+            b.text(f("vessel_name"), 112, 20);
+            b.enumf(f("ship_type"), 232, 8, e_ship);
+            b.dims(240);
+            b.enumf(f("epfd_type"), 270, 4, e_epfd);
+            b.opt_u(f("eta_month_utc"), 274, 4, 0);
+            b.opt_u(f("eta_day_utc"), 278, 5, 0);
+            b.uint(f("eta_hour_utc"), 283, 5);
+            b.opt_u(f("eta_minute_utc"), 288, 6, 60);
+            b.scaled(f("draught"), 294, 8, 10.0, None);
+            if nbits >= 302 {
+                // truncated destination: the whole characters present, at most 20
+                let n = chars_in(nbits - 302).min(20);
+                b.text(f("destination"), 302, n);
+                let after = 302 + 6 * n;
+                let e = if n == 20 {
+                    // bit 422 is the DTE flag (nbits >= 424 here)
+                    Exp::Is(Val::U(get_bits(p, 422, 1).unwrap()))
+                } else if nbits == after {
+                    Exp::Is(Val::U(1)) // missing DTE defaults to "not ready"
+                } else {
+                    // U3: stray bits after the last whole character
+                    Exp::OneOf(vec![Val::U(get_bits(p, after, 1).unwrap()), Val::U(1)])
+                };
+                let class = if n == 20 { Class::Enum } else { Class::Len };
+                b.push(f("dte"), class, after, 1, e);
+            }
+            must(302)
+        }
+        6 => {
+            b.uint(f("seqno"), 38, 2);
+            b.uint(f("dest_mmsi"), 40, 30);
+            b.flag(f("retransmit"), 70);
+            b.uint(f("dac"), 72, 10);
+            b.uint(f("fid"), 82, 6);
+            if nbits >= 88 {
+                let d = p[11..].to_vec();
+                noalloc_may_err = d.len() > NOALLOC_BIN_CAP;
+                b.push(f("data"), Class::Bin, 88, nbits - 88, Exp::Is(Val::Y(d)));
+            }
+            must(88)
+        }
+        8 => {
+            b.uint(f("dac"), 40, 10);
+            b.uint(f("fid"), 50, 6);
+            if nbits >= 56 {
+                let d = p[7..].to_vec();
+                noalloc_may_err = d.len() > NOALLOC_BIN_CAP;
+                b.push(f("data"), Class::Bin, 56, nbits - 56, Exp::Is(Val::Y(d)));
+            }
+            must(56)
+        }
+        7 | 13 => {
+            if nbits >= 72 {
+                let n = ((nbits - 40) / 32).min(4);
+                b.push(f("acks.len"), Class::Len, 40, 32 * n, Exp::Is(Val::U(n as u64)));
+                for i in 0..n {
+                    b.uint(fi("acks[#].mmsi", i), 40 + 32 * i, 30);
+                    b.uint(fi("acks[#].seq_num", i), 70 + 32 * i, 2);
+                }
+            }
+            must(72)
+        }
+        9 => {
+            b.opt_u(f("altitude"), 38, 12, 4095);
+            b.scaled(f("speed_over_ground"), 50, 10, 1.0, Some(1023));
+            b.enumf(f("position_accuracy"), 60, 1, e_plain);
+            b.lonlat28(61);
+            b.scaled(f("course_over_ground"), 116, 12, 10.0, Some(3600));
+            b.uint(f("timestamp"), 128, 6);
+            b.enumf(f("dte"), 142, 1, e_plain);
+            b.enumf(f("assigned_mode"), 146, 1, e_plain);
+            b.flag(f("raim"), 147);
+            match get_bits(p, 148, 1) {
+                Some(0) => b.sotdma(149),
+                Some(_) => b.itdma(149),
+                None => {}
+            }
+            must(168)
+        }
+        10 => {
+            b.uint(f("dest_mmsi"), 40, 30);
+            must(70)
+        }
+        12 => {
+            b.uint(f("seqno"), 38, 2);
+            b.uint(f("dest_mmsi"), 40, 30);
+            b.flag(f("retransmit"), 70);
+            if nbits >= 78 {
+                let n = chars_in(nbits - 72);
+                noalloc_may_err = n > NOALLOC_TEXT_CAP;
+                b.text(f("text"), 72, n);
+            }
+            must(78)
+        }
+        14 => {
+            if nbits >= 46 {
+                let n = chars_in(nbits - 40);
+                noalloc_may_err = n > NOALLOC_TEXT_CAP;
+                b.text(f("text"), 40, n);
+            }
+            must(46)
+        }
+        15 => {
+            // legal forms: 88 bits; 110 bits (112 with padding); 160 bits
+            b.uint(fi("stations[#].mmsi", 0), 40, 30);
+            b.uint(fij("stations[#].messages[#].message_type", 0, 0), 70, 6);
+            let legal = matches!(nbits, 88 | 112 | 160);
+            if nbits >= 88 {
+                b.opt_u(fij("stations[#].messages[#].slot_offset", 0, 0), 76, 12, 0);
+            }
+            if legal {
+                let nst = if nbits == 160 { 2 } else { 1 };
+                b.push(f("stations.len"), Class::Len, 40, nbits - 40, Exp::Is(Val::U(nst)));
+                if nbits >= 112 {
+                    let zero2 = get_bits(p, 90, 18) == Some(0);
+                    let e = if zero2 {
+                        // an all-zero second request means "no second request"
+                        Exp::OneOf(vec![Val::U(1), Val::U(2)])
+                    } else {
+                        Exp::Is(Val::U(2))
+                    };
+                    b.push(fi("stations[#].messages.len", 0), Class::Len, 90, 18, e);
+                    b.opt = true;
+                    b.uint(fij("stations[#].messages[#].message_type", 0, 1), 90, 6);
+                    b.opt_u(fij("stations[#].messages[#].slot_offset", 0, 1), 96, 12, 0);
+                    b.opt = false;
+                } else {
+                    b.push(fi("stations[#].messages.len", 0), Class::Len, 70, 18, Exp::Is(Val::U(1)));
+                }
+                if nbits == 160 {
+                    b.uint(fi("stations[#].mmsi", 1), 110, 30);
+                    b.push(fi("stations[#].messages.len", 1), Class::Len, 140, 18, Exp::Is(Val::U(1)));
+                    b.uint(fij("stations[#].messages[#].message_type", 1, 0), 140, 6);
+                    b.opt_u(fij("stations[#].messages[#].slot_offset", 1, 0), 146, 12, 0);
+                }
+                Status::MustOk
+            } else if nbits < 76 {
+                Status::MustErr("shorter than the mandatory part of its type")
+            } else {
+                // U4: not one of the legal forms. Whatever IS reported for the first request must
+                // still equal the bits at its position; the rest is not judged.
+                for s in b.out.iter_mut() {
+                    s.if_reported = true;
+                }
+                Status::Either("U4: type 15 at a length that is not one of its legal forms")
+            }
+        }
+        16 => {
+            b.uint(f("mmsi1"), 40, 30);
+            b.uint(f("offset1"), 70, 12);
+            b.uint(f("increment1"), 82, 10);
+            if nbits >= 144 {
+                b.uint(f("mmsi2"), 92, 30);
+                b.uint(f("offset2"), 122, 12);
+                b.uint(f("increment2"), 134, 10);
+            } else if nbits >= 92 {
+                b.push(f("mmsi2"), Class::Len, 92, 0, Exp::Is(Val::N));
+                b.push(f("offset2"), Class::Len, 92, 0, Exp::Is(Val::N));
+                b.push(f("increment2"), Class::Len, 92, 0, Exp::Is(Val::N));
+            }
+            must(92)
+        }
+        17 => {
+            b.lonlat18(40);
+            let st = if nbits >= 120 {
+                b.uint(f("payload.message_type"), 80, 6);
+                b.uint(f("payload.station_id"), 86, 10);
+                b.uint(f("payload.z_count"), 96, 13);
+                b.uint(f("payload.sequence_number"), 109, 3);
+                b.uint(f("payload.n"), 112, 5);
+                b.uint(f("payload.health"), 117, 3);
+                let d = p[15..].to_vec();
+                noalloc_may_err = d.len() > NOALLOC_BIN_CAP;
+                b.push(f("payload.data"), Class::Bin, 120, nbits - 120, Exp::Is(Val::Y(d)));
+                Status::MustOk
+            } else if nbits >= 80 {
+                for s in b.out.iter_mut() {
+                    s.if_reported = true;
+                }
+                Status::Either("U5: type 17 without a complete correction header")
+            } else {
+                Status::MustErr("shorter than the mandatory part of its type")
+            };
+            st
+        }
+        18 => {
+            b.scaled(f("speed_over_ground"), 46, 10, 10.0, Some(1023));
+            b.enumf(f("position_accuracy"), 56, 1, e_plain);
+            b.lonlat28(57);
+            b.scaled(f("course_over_ground"), 112, 12, 10.0, Some(3600));
+            b.opt_u(f("true_heading"), 124, 9, 511);
+            b.uint(f("timestamp"), 133, 6);
+            b.enumf(f("cs_unit"), 141, 1, e_plain);
+            b.flag(f("has_display"), 142);
+            b.flag(f("has_dsc"), 143);
+            b.flag(f("whole_band"), 144);
+            b.flag(f("accepts_message_22"), 145);
+            b.enumf(f("assigned_mode"), 146, 1, e_plain);
+            b.flag(f("raim"), 147);
+            match get_bits(p, 148, 1) {
+                Some(0) => b.sotdma(149),
+                Some(_) => b.itdma(149),
+                None => {}
+            }
+            must(168)
+        }
+        19 => {
+            b.scaled(f("speed_over_ground"), 46, 10, 10.0, Some(1023));
+            b.enumf(f("position_accuracy"), 56, 1, e_plain);
+            b.lonlat28(57);
+            b.scaled(f("course_over_ground"), 112, 12, 10.0, Some(3600));
+            b.opt_u(f("true_heading"), 124, 9, 511);
+            b.uint(f("timestamp"), 133, 6);
+            b.text(f("name"), 143, 20);
+            b.enumf(f("type_of_ship_and_cargo"), 263, 8, e_ship);
+            b.dims(271);
+            b.enumf(f("epfd_type"), 301, 4, e_epfd);
+            b.flag(f("raim"), 305);
+            b.enumf(f("dte"), 306, 1, e_plain);
+            b.enumf(f("assigned_mode"), 307, 1, e_plain);
+            must(308)
+        }
+        20 => {
+            if nbits >= 70 {
+                let n = ((nbits - 40) / 30).min(4);
+                b.push(f("reservations.len"), Class::Len, 40, 30 * n, Exp::Is(Val::U(n as u64)));
+                for i in 0..n {
+                    b.uint(fi("reservations[#].offset", i), 40 + 30 * i, 12);
+                    b.uint(fi("reservations[#].num_slots", i), 52 + 30 * i, 4);
+                    b.uint(fi("reservations[#].timeout", i), 56 + 30 * i, 3);
+                    b.uint(fi("reservations[#].increment", i), 59 + 30 * i, 11);
+                }
+            }
+            must(70)
+        }
+        21 => {
+            b.enumf(f("aid_type"), 38, 5, e_navaid);
+            b.text(f("name"), 43, 20);
+            b.enumf(f("accuracy"), 163, 1, e_plain);
+            b.lonlat28(164);
+            b.dims(219);
+            b.enumf(f("epfd_type"), 249, 4, e_epfd);
+            b.uint(f("utc_second"), 253, 6);
+            b.flag(f("off_position"), 259);
+            b.uint(f("regional_reserved"), 260, 8);
+            b.flag(f("raim"), 268);
+            b.flag(f("virtual_aid"), 269);
+            b.flag(f("assigned_mode"), 270);
+            must(271)
+        }
+        24 => match get_bits(p, 38, 2) {
+            None => Status::MustErr("shorter than the mandatory part of its type"),
+            Some(part) => {
+                b.enumf(f("part"), 38, 2, e_part);
+                match part {
+                    0 => {
+                        b.text(f("vessel_name"), 40, 20);
+                        must(160)
+                    }
+                    1 => {
+                        b.enumf(f("ship_type"), 40, 8, e_ship);
+                        b.text(f("vendor_id"), 48, 3);
+                        b.text(f("model_serial"), 66, 4);
+                        b.uint(f("unit_model_code"), 66, 4);
+                        b.uint(f("serial_number"), 70, 20);
+                        b.text(f("callsign"), 90, 7);
+                        b.dims(132);
+                        must(162)
+                    }
+                    _ => must(40),
+                }
+            }
+        },
+        27 => {
+            b.enumf(f("position_accuracy"), 38, 1, e_plain);
+            b.flag(f("raim"), 39);
+            b.enumf(f("navigation_status"), 40, 4, e_nav_status);
+            b.lonlat18(44);
+            b.scaled(f("speed_over_ground"), 79, 6, 1.0, Some(63));
+            b.scaled(f("course_over_ground"), 85, 9, 1.0, Some(511));
+            b.flag(f("gnss_position_status"), 94);
+            must(95)
+        }
+        _ => unreachable!(),
+    };
+    Expectation {
+        status,
+        mtype: t,
+        variant,
+        fields: b.out,
+        noalloc_may_err,
+    }
+}
+
+// ---------------------------------------------------------------------------------------------
+// comparison
+
+#[inline]
+pub fn approx_ok(got: f32, exact: f64) -> bool {
+    if !got.is_finite() {
+        return false;
+    }
+    let g = got as f64;
+    if exact == 0.0 {
+        return g == 0.0;
+    }
+    (g - exact).abs() <= exact.abs() * (1.0 / 4194304.0) // 2^-22
+}
+
+pub fn matches(exp: &Exp, got: &Val) -> bool {
+    match exp {
+        Exp::Any => true,
+        Exp::Is(v) => v == got,
+        Exp::OneOf(vs) => vs.iter().any(|v| v == got),
+        Exp::Approx(e) => match got {
+            Val::F(g) => approx_ok(*g, *e),
+            _ => false,
+        },
+    }
+}
+
+pub fn exp_show(e: &Exp) -> String {
+    match e {
+        Exp::Any => "<any>".into(),
+        Exp::Is(v) => v.show(),
+        Exp::OneOf(vs) => format!("one of [{}]", vs.iter().map(|v| v.show()).collect::<Vec<_>>().join(", ")),
+        Exp::Approx(x) => format!("{:?} (f32, within 2 ulp)", x),
+    }
+}
+
+/// A field mismatch: which field, which clause.
+#[derive(Clone, Debug)]
+pub struct Mismatch {
+    pub id: Fid,
+    pub class: Class,
+    /// "value" | "presence" | "missing" | "unexpected"
+    pub clause: &'static str,
+    pub expected: String,
+    pub observed: String,
+}
+
+/// Compare the implementation's fields with the expectation. Fields the implementation reports but
+/// the reference does not know are flagged as "unexpected" (class Len) — the canonical form and the
+/// tables must enumerate the same field set.
+pub fn compare(exp: &Expectation, got: &[(Fid, Val)], out: &mut Vec<Mismatch>) {
+    out.clear();
+    for sf in &exp.fields {
+        match got.iter().find(|(id, _)| *id == sf.id) {
+            None => {
+                if !sf.if_reported {
+                    out.push(Mismatch {
+                        id: sf.id,
+                        class: sf.class,
+                        clause: "missing",
+                        expected: exp_show(&sf.exp),
+                        observed: "<field not reported>".into(),
+                    });
+                }
+            }
+            Some((_, v)) => {
+                if !matches(&sf.exp, v) {
+                    let presence = match (&sf.exp, v) {
+                        (Exp::Is(Val::N), _) => true,
+                        (_, Val::N) => true,
+                        _ => false,
+                    };
+                    out.push(Mismatch {
+                        id: sf.id,
+                        class: sf.class,
+                        clause: if presence { "presence" } else { "value" },
+                        expected: exp_show(&sf.exp),
+                        observed: v.show(),
+                    });
+                }
+            }
+        }
+    }
+    if exp.status == Status::MustOk {
+        for (id, v) in got {
+            if id.0 == "variant" {
+                continue;
+            }
+            if !exp.fields.iter().any(|sf| sf.id == *id) {
+                out.push(Mismatch {
+                    id: *id,
+                    class: if id.0.starts_with("radio.") { Class::Radio } else { Class::Len },
+                    clause: "unexpected",
+                    expected: "<no such field at this length>".into(),
+                    observed: v.show(),
+                });
+            }
+        }
+    }
+}
